@@ -38,7 +38,11 @@ impl TryRng for Tape {
                 *d = self.bytes[self.pos];
             } else {
                 self.overrun = true;
-                *d = 0;
+                // a sampler that keeps asking long after the tape ended is cut off (reported as a mismatch)
+                if self.pos > self.bytes.len() + 8192 {
+                    panic!("sampler read more than 8 KiB past the end of the tape");
+                }
+                *d = if (self.pos / 4) % 2 == 0 { 0 } else { 0xff };
             }
             self.pos += 1;
         }
